@@ -7,10 +7,12 @@ import Blackbird.Props.C05
 import Blackbird.Props.C06
 import Blackbird.Props.C07
 import Blackbird.Props.C08
+import Blackbird.Props.C10
 import Blackbird.Props.C11
 import Blackbird.Props.C12
 import Blackbird.Props.C13
 import Blackbird.Props.C15
 import Blackbird.Props.C16
 import Blackbird.Props.C17
+import Blackbird.Props.C18
 import Blackbird.Props.C19
